@@ -213,6 +213,8 @@ def doc_cases(ctx, n):
         parts, nshapes = [], 0
         for _ in range(r.randint(1, 5)):
             k = r.random()
+            if i % 5 == 4:
+                k = 0.6 + 0.4 * k        # pages without a glyph of their own: only shapes and figures (forms with text)
             if k < 0.6:
                 words = " ".join("".join(r.choice("abcdefghij") for _ in range(r.randint(1, 6))) for _ in range(r.randint(1, 5)))
                 parts.append("BT /F1 %d Tf %d %d Td (%s) Tj ET" % (r.choice([8, 10, 12, 24]), r.randint(-50, 650), r.randint(-50, 850), words))
@@ -267,6 +269,26 @@ def doc_cases(ctx, n):
             ca, cb = count(a), count(b)
             if ca != cb:
                 ctx.violation(fam, inp, ca, cb, "glyphs / items inside a figure not conserved")
+        if la.all_texts:
+            # with all_texts the contents of every figure are analysed like a page: no glyph is left outside a text line
+            def bare(fig):
+                out = 0
+                for o in fig:
+                    if isinstance(o, LTChar):
+                        out += 1
+                    elif isinstance(o, LTFigure):
+                        out += bare(o)
+                return out
+            for b in pf:
+                if bare(b):
+                    ctx.violation(fam, inp, "every glyph of a figure inside a text line (all_texts)", "%d bare glyphs" % bare(b),
+                                  "figure contents not analysed although all_texts is set")
+                    break
+                for o in b:
+                    if isinstance(o, LTTextBox):
+                        for l in o:
+                            if not l.get_text().endswith("\n"):
+                                ctx.violation(fam, inp, "line break", repr(l.get_text()[-3:]), "a text line inside a figure does not end in a line break")
         texts = sorted(ch.get_text() for ch in raw if isinstance(ch, LTChar))
         got = sorted(e.get_text() for o in page if isinstance(o, (LTTextBox,)) for l in o for e in l if isinstance(e, LTChar)) + \
             sorted(e.get_text() for o in page if isinstance(o, LTTextLine) for e in o if isinstance(e, LTChar))
